@@ -11,6 +11,7 @@ CONSTANTS
   CacheMisses = FALSE
   VerBumps = FALSE
   Forges = FALSE
+  Legacies = FALSE
   FailKinds = {}
 VIEW view
 ACTION_CONSTRAINT Emit
